@@ -660,6 +660,8 @@ def run(ctx):
     n = 2500 if ctx.thorough() else 500
     if os.path.exists(core.COQ + "/Props/C10.v"):
         core.check_props(ctx, ["Props/C10.v"])
+        from vlib import ties2
+        ties2.run_flag(ctx, "--mangle", "Fun10.v", "Tie/C10.v")
     else:
         ctx.notes.append("Props/C10.v pending")
     reuse_n, reuse_bad = resolver_reuse(ctx)
